@@ -266,7 +266,7 @@ Proof. exact example_short_cells. Qed.
 
 (* what the domain excludes: a short record with no cell before it in its row, or whose column
    would be 16384 *)
-Example C03_short_needs_cell :
+Example C03_short_needs_cell_nonvacuous :
   shorts_placed None [(fr1, IRow 0 []); (fr1, IShort 0 0 (VBool true) [])] = false /\
   shorts_placed None [(fr1, IRow 0 []); (fr1, ICell 16383 0 0 (VBool true) []);
                       (fr1, IShort 0 0 (VBool true) [])] = false /\
